@@ -108,6 +108,19 @@ func cmdCheck(args []string) {
 		return p
 	}
 
+	// last line of defence: whatever goes wrong inside the checker on a changed tree, the run ends with a verdict line
+	// and exit 1 (nothing is decided, which is reported as a violation without an input), never with a crash
+	defer func() {
+		if r := recover(); r != nil {
+			p := writeReplay("checker-failure", map[string]interface{}{"obligation": "checker", "error": fmt.Sprint(r),
+				"note": "the checker failed on this tree; no obligation was decided. On the unchanged tree this does not happen."})
+			fmt.Println("govc: internal failure:", r)
+			report(p, " no-failing-input-found")
+			writeEvidence(*evPath, &Evidence{PropertyID: *prop, Tier: *tier, Seed: *seed, Level: *level, WallS: time.Since(t0).Seconds(), Violations: 1,
+				Coverage: map[string]interface{}{"obligations": 1, "discharged": 0, "checker_cmd": strings.Join(os.Args, " "), "trusted_base": []string{}, "explanation": "checker failure: " + fmt.Sprint(r), "evaluations": 1, "distinct_nontrivial": 0}})
+			os.Exit(1)
+		}
+	}()
 	eng, err := loadEngine(*repo)
 	if err != nil {
 		// the tree does not load (or a contract no longer parses against it): nothing can be decided
